@@ -29,4 +29,30 @@ restate C01_vm_refines_sld_cut := vm_refines_sld_cut
 
 restate C01_vm_refines_sld_cut_canon := vm_refines_sld_cut_canon
 
+/- **C01_vm_refines_sld_call** (stage 3a): the same for `CallFrag` = `CutFrag` + `call(G)` as a goal of
+    clause bodies, of the query and — recursively — of the goals that are called (`G` any term;
+    what it is bound to at call time must be a variable (instantiation error on both sides) or again
+    a body of the fragment: that, and that the model's inner fuel suffices to dereference `G`, is
+    the side condition `CallsOK` on the VM's run).  A cut inside `call/1` is local. -/
+restate C01_vm_refines_sld_call := vm_refines_sld_call
+
+/- **C01_vm_refines_sld_ctl** (stage 3, growing): `CtlFrag` = `CutFrag` + the control constructs as goals
+    (clause bodies, query, called goals): `call(G)`, if-then-else `(C -> T ; E)`, if-then `(C -> T)`
+    — executed by the VM through the clauses of bootstrap.pl (`If -> Then ; _ :- If, !, Then.`,
+    `_ -> _ ; Else :- !, Else.`, `If -> Then :- If, !, Then.`), by the reference as a branch with a
+    cut local to the construct; `once(G)` (VM: `once(P) :- P, !.`; reference: `(call(G) -> true)`,
+    i.e. with calls `call(call(G))`, `call(true)` the VM does not make); `\\+ G` (VM: the thunk
+    `negate` calls `G` in a trampoline of its own — `force` on an empty stack, related to the
+    recursive search by `force_dfsG_conv` and `vm_nested_well_scoped` —, reference:
+    `(call(G) -> fail ; true)`).
+    Disjunction `;`/2 at the top level of a clause body (one compiled clause per alternative —
+    `altBodies` — against the reference's `splitClause`), of the query and of a called goal.
+    Side condition `CallsOK` as for `call/1` (for `\\+ G` also on the goal `G` and, recursively, on
+    the nested search).
+    OPEN (see `VmRefinesSldCtlFullStatement`): a non-if-then-else disjunction as a goal INSIDE a
+    conjunction, `','/2` as a predicate, call/N for N ≥ 2.
+    FINDING: for call/N with N ≥ 9 the VM model answers where the reference (and the Go engine, which
+    defines call/1..call/8 only) raises existence_error(procedure, call/N). -/
+restate C01_vm_refines_sld_ctl := vm_refines_sld_ctl
+
 end PrologVerif.C01
